@@ -9,7 +9,7 @@ var verdicts = []string{"ValidationAccept", "ValidationReject", "ValidationIgnor
 
 func init() {
 	register(&Property{ID: "C04", Run: runC04,
-		Explain: "Verdict logic decided by value-set propagation over the four-value verdict enum (T5) plus dominance: (R04.1) validateMsg returns only Accept/Reject/Ignore (out-of-range -> Ignore); (R04.2) in validate the value set of the inline result is {Accept} at onValid, within {Accept,Ignore} at the asynchronous hand-off, Reject leads to RejectMessage(RejectValidationFailed)+error, Ignore without async validators to RejectValidationIgnored+error; (R04.3) validateTopic combines verdicts monotonically in the order Accept<Ignore<Throttled<Reject (every assignment `result=C` happens where the current set is below C and in the arm of the received verdict C), which makes the outcome independent of completion order; (R04.4) doValidateTopic calls onValid only with result in {Accept} even when the inline stage said Ignore, and each non-accept arm reports the matching reason; (R04.5) peerScore.RejectMessage never reaches markInvalidMessageDelivery for throttled/ignored/queue-full/blacklist reasons and always penalises the forwarder (and every recorded duplicate sender) for RejectValidationFailed; (R04.6) local publishing validates synchronously (all validators inline) and surfaces the pipeline's error. NOT decided: validator timeouts, purity of user validators.",
+		Explain: "Verdict logic decided by value-set propagation over the four-value verdict enum (T5) plus dominance: (R04.1) validateMsg returns only Accept/Reject/Ignore (out-of-range -> Ignore); (R04.2) in validate the value set of the inline result is {Accept} at onValid, within {Accept,Ignore} at the asynchronous hand-off, Reject leads to RejectMessage(RejectValidationFailed)+error, Ignore without async validators to RejectValidationIgnored+error; (R04.3) validateTopic combines verdicts monotonically in the order Accept<Ignore<Throttled<Reject (every assignment `result=C` happens where the current set is below C and in the arm of the received verdict C), which makes the outcome independent of completion order; (R04.4) doValidateTopic calls onValid only with result in {Accept} even when the inline stage said Ignore, and each non-accept arm reports the matching reason; (R04.5) peerScore.RejectMessage never reaches markInvalidMessageDelivery for throttled/ignored/queue-full/blacklist reasons and always penalises the forwarder (and every recorded duplicate sender) for RejectValidationFailed; (R04.7) the validator list attached to a queued message is a private copy (no append through an alias of the shared default list); (R04.6) local publishing validates synchronously (all validators inline) and surfaces the pipeline's error. NOT decided: validator timeouts, purity of user validators.",
 		Assume:  []string{"user validators return a ValidationResult (any int value)", "go/cfg fallthrough edges are modelled by x/tools"},
 		Mutants: []Mutant{
 			{Name: "validateMsg-unknown-passthrough", File: "validation.go", Old: "\t\tval.logger.Warn(\"Unexpected result from validator; ignoring message\", \"result\", r)\n\t\treturn ValidationIgnore", New: "\t\tval.logger.Warn(\"Unexpected result from validator; ignoring message\", \"result\", r)\n\t\treturn r", Expect: "R04.1"},
@@ -22,6 +22,7 @@ func init() {
 			{Name: "score-penalise-ignored", File: "score.go", Old: "\tcase RejectValidationIgnored:\n\t\t// we were explicitly instructed by the validator to ignore the message but not penalize\n\t\t// the peer\n\t\tdrec.status = deliveryIgnored\n\t\tdrec.peers = nil\n\t\treturn", New: "\tcase RejectValidationIgnored:\n\t\t// we were explicitly instructed by the validator to ignore the message but not penalize\n\t\t// the peer\n\t\tdrec.status = deliveryIgnored", Expect: "R04.5"},
 			{Name: "score-skip-forwarder-penalty", File: "score.go", Old: "\tps.markInvalidMessageDelivery(msg.ReceivedFrom, msg.GetTopic())\n\tfor p := range drec.peers {", New: "\tif len(drec.peers) == 0 {\n\t\tps.markInvalidMessageDelivery(msg.ReceivedFrom, msg.GetTopic())\n\t}\n\tfor p := range drec.peers {", Expect: "R04.5"},
 			{Name: "local-async-allowed", File: "validation.go", Old: "\t\tif val.validateInline || synchronous {", New: "\t\tif val.validateInline || (synchronous && len(vals) == 1) {", Expect: "R04.6"},
+			{Name: "getValidators-aliases-defaults", File: "validation.go", Old: "\tvar vals []*validatorImpl\n\tvals = append(vals, v.defaultVals...)\n", New: "\tvals := v.defaultVals\n", Expect: "R04.7"},
 			{Name: "publish-swallows-error", File: "topic.go", Old: "\terr := t.p.val.ValidateLocal(msg)\n\tif err != nil {\n\t\treturn nil, err\n\t}\n\treturn msg, nil", New: "\terr := t.p.val.ValidateLocal(msg)\n\tif err != nil && !pub.local {\n\t\treturn nil, err\n\t}\n\treturn msg, nil", Expect: "R02.2"},
 		}})
 }
@@ -404,6 +405,17 @@ func runC04(c *RuleCtx) {
 				c.Check(ok2, "R04.5", f.Name, "duplicate-sender loop on every RejectValidationFailed path", r, "always reached", "the loop is skipped on a RejectValidationFailed path")
 			}
 		}
+	}
+	// ---- R04.7 validator lists handed to the pipeline are never extended in place
+	nAlias := 0
+	for _, a := range p.AliasingAppends() {
+		if strings.HasPrefix(a.Field, "validation.") || strings.HasPrefix(a.Field, "validateReq.") {
+			nAlias++
+			c.Bad("R04.7", a.Fn.Root().Name, "append aliases "+a.Field, a.Call, "append() extends (an alias of) the shared validator list "+a.Field+" without storing the result back: with spare capacity a later call overwrites the validators of a queued message")
+		}
+	}
+	if nAlias == 0 {
+		c.OK("R04.7", "validation", "no aliasing append on validator lists", nil, "no append() in the module extends a validator list field through an alias")
 	}
 	c.Min["R04.1"] = 1
 	c.Min["R04.2"] = 10
